@@ -90,6 +90,13 @@ def run_impl(case):
                         return 1
                     await f(x=case["pattern"])
                     out = [k for k in live if await mem.exists(k)]
+                elif len(case["pattern"]) % 4 == 0:
+                    # the template field is filled through args_map from a differently named parameter, and has a fallback in defaults
+                    @cache.invalidate("{x}", args_map={"x": "pat"}, defaults={"x": "*"})
+                    async def h(pat, other=None):
+                        return 1
+                    await h(case["pattern"])
+                    out = [k for k in live if await mem.exists(k)]
                 else:       # the pattern field has a default ('*') and is passed by keyword after another keyword argument
                     @cache.invalidate("{x}")
                     async def g(uid, x="*"):
